@@ -506,6 +506,8 @@ func (w *Whisper) GetAllRawUnsortedPoints(archiveID int) (Points, error) {
 	return points, nil
 }
 
+var errCorruptBaseInterval = errors.New("corrupt archive: stored base interval is inconsistent with the requested time range")
+
 func (w *Whisper) fetchRawPoints(archiveID int, fromInterval, untilInterval Timestamp) (Points, error) {
 	r := &w.ArchiveInfoList()[archiveID]
 	baseInterval, err := w.baseInterval(r)
@@ -521,6 +523,9 @@ func (w *Whisper) fetchRawPoints(archiveID int, fromInterval, untilInterval Time
 	if fromOffset < untilOffset {
 		i := 0
 		for off := fromOffset; off < untilOffset; off += pointSize {
+			if i >= len(points) {
+				return nil, errCorruptBaseInterval
+			}
 			points[i], err = w.readPointAt(off)
 			if err != nil {
 				return nil, err
@@ -535,6 +540,9 @@ func (w *Whisper) fetchRawPoints(archiveID int, fromInterval, untilInterval Time
 
 	i := 0
 	for off := fromOffset; off < arcEndOffset; off += pointSize {
+		if i >= len(points) {
+			return nil, errCorruptBaseInterval
+		}
 		points[i], err = w.readPointAt(off)
 		if err != nil {
 			return nil, err
@@ -542,6 +550,9 @@ func (w *Whisper) fetchRawPoints(archiveID int, fromInterval, untilInterval Time
 		i++
 	}
 	for off := arcStartOffset; off < untilOffset; off += pointSize {
+		if i >= len(points) {
+			return nil, errCorruptBaseInterval
+		}
 		points[i], err = w.readPointAt(off)
 		if err != nil {
 			return nil, err
